@@ -233,3 +233,62 @@ def run_stream(cfg, passes=1, observe=None, rng=None, record=False,
                           storage=st.name)
     res.actions = actions
     return res
+
+
+class Stepper:
+    """One schedule advanced one action at a time (eager finalisation);
+    used for interleaved / threaded histories and fresh-process baselines."""
+
+    def __init__(self, cfg, passes=2):
+        self.cfg = cfg
+        self.n = cfg["n"]
+        self.s, self.stdout = build_captured(cfg)
+        pa = PASSES[cfg["cls"]]
+        self.want = passes if pa is None else pa
+        self.online = cfg["cls"] in ("SingleMemory", "SingleDiskCopy",
+                                     "SingleDiskMove", "None", "TwoLevel")
+        self.finalized = not self.online
+        self.stream = []
+        self.passes = 0
+        self.done = False
+        self.error = None
+        self.cap = 40 * max(self.n, 1) * max(self.want, 1) + 200
+
+    def step(self):
+        if self.done:
+            return None
+        try:
+            a = next(self.s)
+        except StopIteration:
+            self.done = True
+            self.stream.append(("StopIteration",))
+            return None
+        except Exception as e:
+            self.done = True
+            self.error = e
+            self.stream.append(("raised", type(e).__name__))
+            return None
+        self.stream.append(act_tuple(a))
+        if isinstance(a, Forward) and not self.finalized:
+            if a.n1 >= self.n:
+                try:
+                    self.s.finalize(self.n)
+                except Exception as e:
+                    self.stream.append(("finalize raised",
+                                        type(e).__name__))
+                self.finalized = True
+        if isinstance(a, EndReverse):
+            self.passes += 1
+            if self.passes >= self.want:
+                self.done = True
+        elif isinstance(a, EndForward) and self.want == 0:
+            self.done = True
+        if len(self.stream) >= self.cap:
+            self.done = True
+            self.stream.append(("cap reached",))
+        return a
+
+    def run(self):
+        while not self.done:
+            self.step()
+        return self.stream
